@@ -7,6 +7,7 @@ RECIPES = ['udf_fid_cross', 'udf_fid_exact', 'udf_symlinks']
 
 def oracle(b, report):
     nsoracles.oracle_c10(b, report)
+    fid_oracle(b, report)
 
 
 def leaf_gen(ctx):
@@ -39,6 +40,60 @@ def leaf_gen(ctx):
                            'coq_case': rows[i][:600]})
 
 
+FID_CASES = []
+
+
+def fid_oracle(b, report):
+    """collect, for every UDF directory of the image, the descriptor lengths and the tag locations they record"""
+    import struct
+    rd = b.rd
+    if rd is None or rd.udf is None or rd.udf.get('root') is None or len(FID_CASES) > 1500:
+        return
+    pstart = rd.udf['partition']['start']
+    stack = [rd.udf['root']]
+    while stack:
+        d = stack.pop()
+        stack.extend(c for c in d.children if c.is_dir)
+        if not d.extents or d.extents[0][0] is None:
+            continue
+        sec, ln = d.extents[0]
+        area = b.img[sec * 2048:sec * 2048 + ln]
+        pos, lens, locs = 0, [], []
+        while pos + 38 <= len(area):
+            ident, = struct.unpack_from('<H', area, pos)
+            if ident != 257:
+                break
+            tagloc, = struct.unpack_from('<L', area, pos + 12)
+            l_fi = area[pos + 19]
+            l_iu, = struct.unpack_from('<H', area, pos + 36)
+            flen = (38 + l_iu + l_fi + 3) // 4 * 4
+            lens.append(flen)
+            locs.append(tagloc + pstart - sec)
+            pos += flen
+        if lens and pos == len(area):
+            FID_CASES.append((lens, locs))
+
+
+def flush_fid_cases(ctx):
+    if not FID_CASES:
+        return
+    rows = ['(%s, %s)' % (common.zlist(a), common.zlist(l)) for a, l in FID_CASES]
+    defs = ['Fixpoint zeq (a b : list Z) : bool := match a, b with [], [] => true | x :: r, y :: s => (x =? y) && zeq r s | _, _ => false end.',
+            'Fixpoint bad_from (k : nat) (cs : list (list Z * list Z)) : list nat := match cs with [] => [] | (lens, locs) :: r => '
+            'if zeq (fid_locations 2048 lens) locs then bad_from (S k) r else k :: bad_from (S k) r end.']
+    bad, err = common.coq_bad_cases('c10fid', ['From PV.Model Require Import Fid.'], defs, '(list Z * list Z)', rows, 'bad_from 0', shard=300)
+    name = 'Fid.fid_locations vs tag locations recorded in the File Identifier Descriptors of written images'
+    if bad is None:
+        ctx.broken.append({'name': 'correspondence:' + name, 'summary': 'model evaluation failed: ' + err})
+    else:
+        ctx.cov['traces_validated_against_impl'] += len(rows) - len(bad)
+        ctx.cov['correspondences'][name] = {'cases': len(rows), 'disagreements': len(bad), 'multi_block': sum(1 for a, l in FID_CASES if sum(a) > 2048)}
+        for i in bad[:2]:
+            ctx.broken.append({'name': 'correspondence:' + name, 'summary': 'the descriptor locations of a UDF directory are not those of Model/Fid.v',
+                               'case': {'lens': FID_CASES[i][0][:80], 'recorded': FID_CASES[i][1][:80]}})
+    del FID_CASES[:]
+
+
 def run(ctx):
     common.proof_stage(ctx, MODULE, common.theorems_of(MODULE))
     common.setup_impl_path()
@@ -58,6 +113,7 @@ def run(ctx):
         rp = (ctx.rng.randrange(1, max(2, len(ops))),)
         sysprops.run_oracle(ctx, 'C10', iter([(label + '+reopen', cfg, ops, sizes)]), oracle, need_reopen=False, max_shrink=1,
                             build_kwargs={'reopen_points': rp})
+    flush_fid_cases(ctx)
     ctx.cov['rule'] = ('UDF-bridge images of random histories (directories past one identifier sector, cross-namespace links, removals, '
                        'Latin-1 and UCS-2 names, symlinks with non-Latin-1 components, zero-length files) plus recipes (identifier area '
                        'filled exactly to a sector boundary with entries after it), fresh and reopened-then-edited; an independent '
